@@ -510,6 +510,43 @@ fn ctxt_id() -> usize {
     let rt = SHARED.get();
     rt
 }""")]),
+ # ---- round 6: equivalent spellings of the constructs the round-6 rules read --------------------------------------------
+ ("B.metric_buckets_named_end", ["C13", "C14"], "emitter/otlp/src/data/metrics.rs", [
+   ("""                    point.start_time_unix_nano = point_time;
+                    point_time += step;
+                    point.time_unix_nano = point_time;""", """                    let bucket_end = point_time + step;
+                    point.start_time_unix_nano = point_time;
+                    point.time_unix_nano = bucket_end;
+                    point_time = bucket_end;""")]),
+ ("B.watchers_drain", ["C07", "C08"], "batcher/src/lib.rs", [
+   ("""        for watcher in mem::take(&mut self.on_flush) {
+            let _ = panic::catch_unwind(AssertUnwindSafe(watcher));
+        }""", """        for watcher in self.on_flush.drain(..) {
+            let _ = panic::catch_unwind(AssertUnwindSafe(watcher));
+        }""")]),
+ ("B.poison_named_guard", ["C12"], "emitter/otlp/src/client/http.rs", [
+   ("        self.sender.lock().unwrap().take()", "        let mut slot = self.sender.lock().unwrap();\n        let taken = slot.take();\n        taken")]),
+ ("B.stdfile_len_let", ["C10", "C11"], "emitter/file/src/lib.rs", [
+   ("        Ok(self.0.metadata()?.len() as usize)", "        let meta = self.0.metadata()?;\n        let len = meta.len();\n        Ok(len as usize)")]),
+ ("B.encoding_match_reordered", ["C12", "C13"], "emitter/otlp/src/client.rs", [
+   ("        Encoding::Proto => data::Proto::encode(&resource),\n        Encoding::Json => data::Json::encode(&resource),", "        Encoding::Json => data::Json::encode(&resource),\n        Encoding::Proto => data::Proto::encode(&resource),")]),
+ ("B.spawn_inner_locals", ["C10", "C11"], "emitter/file/src/lib.rs", [
+   ("            self.roll_by,\n            self.reuse_files,\n            self.max_files,\n            self.max_file_size_bytes,\n            self.separator,\n        );", "            self.roll_by,\n            self.reuse_files,\n            { let max_files = self.max_files; max_files },\n            self.max_file_size_bytes,\n            self.separator,\n        );")]),
+ ("B.when_flushed_boxed_first", ["C07", "C08", "C12"], "batcher/src/lib.rs", [
+   ("            state.next_batch.watchers.push_on_flush(Box::new(f));", "            let watcher: Watcher = Box::new(f);\n            state.next_batch.watchers.push_on_flush(watcher);")]),
+ ("B.bounded_state_let", ["C06", "C07", "C08", "C09"], "batcher/src/lib.rs", [
+   ("""        state: Mutex::new(State {
+            next_batch: Batch::new(),
+            is_open: true,
+            is_in_batch: false,
+        }),""", """        state: {
+            let state = State {
+                is_in_batch: false,
+                is_open: true,
+                next_batch: Batch::new(),
+            };
+            Mutex::new(state)
+        },""")]),
 ]
 
 RENAMES = [
